@@ -226,7 +226,14 @@ class CirqEncoder(json.JSONEncoder):
         # Object with custom method?
         if hasattr(o, '_json_dict_'):
             if isinstance(o, SerializableByKey):
-                if ref := self._memo.get(o):
+                try:
+                    ref = self._memo.get(o)
+                except TypeError:
+                    # An unhashable value (e.g. a FrozenCircuit holding a KrausChannel) cannot be
+                    # shared by key; it is written in full.
+                    val = self._cache[oid] = _json_dict_with_cirq_type(o)
+                    return val
+                if ref:
                     return ref
                 key = len(self._memo)
                 ref = {"cirq_type": "REF", "key": key}
